@@ -161,7 +161,7 @@ pub(crate) fn sign_internal<
 >(
     beta: i32, gamma1: i32, gamma2: i32, omega: i32, tau: i32, esk: &PrivateKey<K, L>,
     message: &[u8], ctx: &[u8], oid: &[u8], phm: &[u8], rnd: [u8; 32], nist: bool,
-) -> [u8; SIG_LEN] {
+) -> Result<[u8; SIG_LEN], &'static str> {
     //
     // 1: (ρ, K, tr, s_1, s_2, t_0) ← skDecode(sk)
     // --> calculated in `expand_private()` near the bottom of this file
@@ -211,6 +211,14 @@ pub(crate) fn sign_internal<
     // 10: while (z, h) = ⊥ do    ▷ Rejection sampling loop (with continue for ⊥)
     loop {
         //
+        // The 16-bit counter must not wrap: a (malformed but accepted) private key can make every
+        // candidate fail, and FIPS 204 Appendix C allows bounding the number of iterations
+        let Some(kappa_next) =
+            kappa_ctr.checked_add(u16::try_from(L).expect("cannot fail; L is static parameter"))
+        else {
+            return Err("Sign: rejection loop did not terminate");
+        };
+
         // 11: y ← ExpandMask(ρ′', κ)
         let y: [R; L] = expand_mask(gamma1, &rho_prime, kappa_ctr);
 
@@ -278,7 +286,7 @@ pub(crate) fn sign_internal<
         let r0_norm = infinity_norm(&r0);
         // CTEST is used only for constant-time measurements via `dudect`
         if !CTEST && ((z_norm >= (gamma1 - beta)) || (r0_norm >= (gamma2 - beta))) {
-            kappa_ctr += u16::try_from(L).expect("cannot fail; L is static parameter");
+            kappa_ctr = kappa_next;
             continue;
             //
             // 24: else  ... not needed with 'continue'
@@ -313,7 +321,7 @@ pub(crate) fn sign_internal<
             && ((infinity_norm(&c_t_0) >= gamma2)
                 || (h.iter().map(|h_i| h_i.0.iter().sum::<i32>()).sum::<i32>() > omega))
         {
-            kappa_ctr += u16::try_from(L).expect("cannot fail; L is static parameter");
+            kappa_ctr = kappa_next;
             continue;
             // 29: end if
         }
@@ -333,7 +341,7 @@ pub(crate) fn sign_internal<
     // 34: return σ
     let zmodq: [R; L] =
         core::array::from_fn(|l| R(core::array::from_fn(|n| center_mod(z[l].0[n]))));
-    sig_encode::<CTEST, K, L, LAMBDA_DIV4, SIG_LEN>(gamma1, omega, &c_tilde, &zmodq, &h)
+    Ok(sig_encode::<CTEST, K, L, LAMBDA_DIV4, SIG_LEN>(gamma1, omega, &c_tilde, &zmodq, &h))
 }
 
 
